@@ -645,7 +645,12 @@ def find(obj, lookup_list, rrel_tree, obj_cls=None, split_string=".", use_proxy=
     if type(res) is tuple:
         # full path is in res[1]
         if use_proxy:
-            return ReferenceProxy(res[1])
+            path = res[1]
+            if not path or path[-1] is not res[0]:
+                # The expression ends with steps that do not consume a name
+                # (e.g. `~attr`, `..`): the path still has to end in the target.
+                path = path + [res[0]]
+            return ReferenceProxy(path)
         else:
             return res[0]
     else:
